@@ -241,6 +241,7 @@ func exec(i in) vh.Out {
 	committed := registry.NewJSONDataBag()
 	read := func() (registry.JSONDataBag, error) { return committed, nil }
 	write := func(b registry.JSONDataBag) error { committed = b; return nil }
+	bare := registry.NewJSONDataBag() // View.Set without a transaction
 	var txs []*registry.Transaction
 	var steps []string
 	var obsj []interface{}
@@ -261,9 +262,9 @@ func exec(i in) vh.Out {
 			ob = bagMap(committed)
 		case "set":
 			v := norm(o.V)
+			opS = fmt.Sprintf("(OSet %d%%nat %s %s)", o.I, coqPath(o.Req), coqTree(v))
 			err := view.Set(txs[o.I], o.Req, v)
 			c := errClass(err)
-			opS = fmt.Sprintf("(OSet %d%%nat %s %s)", o.I, coqPath(o.Req), coqTree(v))
 			obS = "(BRes " + c + ")"
 			ob = c
 			tags["set-"+c] = true
@@ -289,6 +290,14 @@ func exec(i in) vh.Out {
 				ob = c
 				tags["get-"+c] = true
 			}
+		case "bare":
+			v := norm(o.V)
+			// printed first: JSONDataBag.Set strips nil members from the caller's value in place
+			opS = fmt.Sprintf("(OBare %s %s)", coqPath(o.Req), coqTree(v))
+			err := view.Set(bare, o.Req, v)
+			obS = "(BBag " + vh.CoqBool(err == nil) + " " + coqMap(bagMap(bare)) + ")"
+			ob = map[string]interface{}{"class": errClass(err), "bag": bagMap(bare)}
+			tags["bare-"+errClass(err)] = true
 		case "commit":
 			err := txs[o.I].Commit()
 			opS = fmt.Sprintf("(OCommit %d%%nat)", o.I)
@@ -322,10 +331,12 @@ var reqKeys = []string{"a", "b", "c", "d"}
 var stoKeys = []string{"p", "q", "r"}
 var accs = []string{"", "read-write", "read", "write", "read-write"}
 
-func genRule(r *vh.Rand, maxLen int) rule {
+func genRule(r *vh.Rand, maxLen int, names ...string) rule {
 	n := r.Range(1, maxLen)
 	var req, phs []string
-	names := []string{"x", "y"}
+	if len(names) == 0 {
+		names = []string{"x", "y"}
+	}
 	for k := 0; k < n; k++ {
 		if r.Chance(1, 4) && len(phs) < 2 {
 			ph := "{" + names[len(phs)] + "}"
@@ -368,7 +379,9 @@ func genRules(r *vh.Rand) []rule {
 				x = genRule(r, 2)
 				c := r.Range(1, 2)
 				for j := 0; j < c; j++ {
-					x.Content = append(x.Content, genRule(r, 2))
+					// nested rules use their own placeholder names (reusing the parent's name makes every candidate
+					// of the unmatched suffix write to the same storage path: map-order dependent)
+					x.Content = append(x.Content, genRule(r, 2, "z", "w"))
 				}
 			}
 			rs = append(rs, x)
@@ -478,6 +491,19 @@ func genHist(r *vh.Rand) in {
 			if lit && !r.Chance(1, 10) {
 				setNested(m, suffix, genValue(r, 1))
 			}
+			if !lit { // one or two candidates for every placeholder of the suffix
+				for c := r.Range(1, 2); c > 0; c-- {
+					inst := make([]string, len(suffix))
+					for k, s := range suffix {
+						if strings.HasPrefix(s, "{") {
+							inst[k] = r.Pick(reqKeys)
+						} else {
+							inst[k] = s
+						}
+					}
+					setNested(m, inst, genValue(r, 1))
+				}
+			}
 		}
 		if full || len(m) == 0 {
 			return genValue(r, 2)
@@ -539,14 +565,28 @@ func genHist(r *vh.Rand) in {
 		}
 		return false
 	}
-	genReq0 := genReq
-	genReq = func() []string {
-		for {
-			q := genReq0()
-			if !outside(q) || r.Chance(1, 12) {
-				return q
+	_ = outside
+	phLeft := func(req []string) bool { // a matching rule keeps a {placeholder} in its unmatched suffix
+		for _, fr := range frules {
+			if len(fr.req) < len(req) {
+				continue
+			}
+			ok := true
+			for k := range req {
+				if !strings.HasPrefix(fr.req[k], "{") && fr.req[k] != req[k] {
+					ok = false
+				}
+			}
+			if !ok {
+				continue
+			}
+			for _, sfx := range fr.req[len(req):] {
+				if strings.HasPrefix(sfx, "{") {
+					return true
+				}
 			}
 		}
+		return false
 	}
 	ops := []op{{K: "new"}}
 	ntx := 1
@@ -571,10 +611,15 @@ func genHist(r *vh.Rand) in {
 				ops = append(ops, readBacks(reqs, req, ti, 3)...)
 			}
 		case x < 55:
+			for tries := 0; tries < 5 && phLeft(req) && !r.Chance(1, 12); tries++ {
+				req = genReq() // View.Unset through an unfilled placeholder is outside the model: keep it rare
+			}
 			ops = append(ops, op{K: "unset", I: r.Intn(ntx), Req: strings.Join(req, ".")})
+		case x < 59:
+			ops = append(ops, op{K: "bare", Req: strings.Join(req, "."), V: genFor(req)})
 		case x < 85:
 			rq := strings.Join(req, ".")
-			if r.Chance(1, 10) && !outside(nil) {
+			if r.Chance(1, 10) {
 				rq = ""
 			}
 			ops = append(ops, op{K: "get", I: r.Intn(ntx), Req: rq})
@@ -692,6 +737,49 @@ func genNested(r *vh.Rand) in {
 	}
 }
 
+// rules whose unmatched suffixes are prefixes of one another (b and b.c): the real View.Set accepts or answers
+// BadRequest depending on map iteration order; either way nothing partial may happen
+func genOverlap(r *vh.Rand) in {
+	for {
+		pre := r.Pick(reqKeys)
+		perm := r.Perm(len(reqKeys))
+		k1, k2, k3 := reqKeys[perm[0]], reqKeys[perm[1]], reqKeys[perm[2]]
+		sp := r.Perm(len(stoKeys))
+		rules := []rule{{Req: pre + "." + k1, Sto: stoKeys[sp[0]]}, {Req: pre + "." + k1 + "." + k2, Sto: stoKeys[sp[1]]}}
+		if r.Chance(1, 4) {
+			rules[1].Sto = stoKeys[sp[0]] + "." + stoKeys[sp[1]]
+		}
+		if r.Chance(2, 3) {
+			rules = append(rules, rule{Req: pre + "." + k3, Sto: stoKeys[sp[2]], Acc: r.Pick(accs)})
+		}
+		if r.Bool() {
+			rules[0], rules[1] = rules[1], rules[0]
+		}
+		if _, err := mkView(rules); err != nil {
+			continue
+		}
+		var reqs [][]string
+		flatReqs("", rules, &reqs)
+		inner := map[string]interface{}{k2: scalar(r)}
+		if r.Chance(1, 2) {
+			inner[r.Pick(reqKeys)] = scalar(r)
+		}
+		val := map[string]interface{}{k1: inner}
+		if r.Chance(2, 3) {
+			val[k3] = scalar(r)
+		}
+		if r.Chance(1, 6) {
+			val[r.Pick(reqKeys)] = scalar(r) // possibly unused data: must be rejected whatever the order
+		}
+		ops := []op{{K: "new"}, {K: "set", Req: pre, V: val}}
+		ops = append(ops, readBacks(reqs, []string{pre}, 0, 4)...)
+		ops = append(ops, op{K: "commit"}, op{K: "new"})
+		ops = append(ops, readBacks(reqs, []string{pre}, 1, 4)...)
+		ops = append(ops, op{K: "bare", Req: pre, V: val})
+		return in{Rules: rules, Ops: ops}
+	}
+}
+
 func fixed() []in {
 	return []in{
 		// write-only data never leaks, read-only rules are never written
@@ -712,6 +800,18 @@ func fixed() []in {
 		{Rules: []rule{{Req: "a.b", Sto: "p"}, {Req: "a.c", Sto: "p.q"}},
 			Ops: []op{{K: "new"}, {K: "set", Req: "a", V: map[string]interface{}{"c": int64(1), "b": map[string]interface{}{"d": int64(2)}}},
 				{K: "get", Req: "a.c"}, {K: "get", Req: "a.b"}, {K: "get", Req: "a"}, {K: "commit"}, {K: "new"}, {K: "get", I: 1, Req: "a.c"}, {K: "get", I: 1, Req: "a"}}},
+		// bare databag: the second write fails the schema, the first one stays behind
+		{Rules: []rule{{Req: "a.b", Sto: "p"}, {Req: "a.c", Sto: "q"}},
+			Ops: []op{{K: "bare", Req: "a", V: map[string]interface{}{"b": int64(1), "c": int64(99)}}, {K: "bare", Req: "a.b", V: int64(2)},
+				{K: "new"}, {K: "set", Req: "a", V: map[string]interface{}{"b": int64(1), "c": int64(99)}}, {K: "commit"}}},
+		// order-dependent suffixes (b and b.c): accepted or BadRequest, never a partial effect
+		{Rules: []rule{{Req: "a.b", Sto: "p"}, {Req: "a.b.c", Sto: "q"}, {Req: "a.d", Sto: "r"}},
+			Ops: []op{{K: "new"}, {K: "set", Req: "a", V: map[string]interface{}{"b": map[string]interface{}{"c": int64(1)}, "d": int64(2)}},
+				{K: "get", Req: "a.b"}, {K: "get", Req: "a.d"}, {K: "commit"}, {K: "new"}, {K: "get", I: 1, Req: "a"}}},
+		// a placeholder left in the unmatched suffix: filled from the keys of the value
+		{Rules: []rule{{Req: "a.{x}.b", Sto: "p.{x}"}, {Req: "c", Sto: "q"}},
+			Ops: []op{{K: "new"}, {K: "set", Req: "a", V: map[string]interface{}{"c": map[string]interface{}{"b": int64(1)}, "d": map[string]interface{}{"b": int64(2)}}},
+				{K: "get", Req: "a"}, {K: "get", Req: "a.c"}, {K: "get", Req: "a.d.b"}, {K: "get", Req: ""}, {K: "commit"}, {K: "new"}, {K: "get", I: 1, Req: "a"}}},
 		// nested rules and a prefix request with a value covering the suffixes
 		{Rules: []rule{{Req: "a", Sto: "p", Content: []rule{{Req: "b", Sto: "q"}, {Req: "c", Sto: "r", Acc: "read"}}}},
 			Ops: []op{{K: "new"}, {K: "set", Req: "a", V: map[string]interface{}{"b": int64(1), "d": int64(2)}}, {K: "get", Req: "a"}, {K: "get", Req: "a.b"}, {K: "set", Req: "a.c", V: int64(5)},
@@ -727,6 +827,8 @@ func gen(r *vh.Rand, tier string, n int) []in {
 	for k := 0; k < n; k++ {
 		if k%3 == 2 {
 			ins = append(ins, genNested(r))
+		} else if k%9 == 4 {
+			ins = append(ins, genOverlap(r))
 		} else {
 			ins = append(ins, genHist(r))
 		}
